@@ -45,6 +45,13 @@ Theorem C08_grow_depth : forall nt funs d0 mn mx ds st r st' ds',
   exists t, abs st' r = Some t /\ height t <= mx.
 Proof. exact (grow_depth arity_tab C08_arity_table_ok). Qed.
 
+(* progress: under the uniform contract (draws are fractions n/d with n < d) and with 2^(d+1)-1 draws
+   available, grow returns a tree -- C08_grow_wf is not vacuous for any function set / depth *)
+Theorem C08_grow_total : forall nt funs d0 d ds st,
+  funs_ok arity_tab funs -> 0 < nt -> Forall frac_ok ds -> needs d <= length ds ->
+  exists r st' ds' pre, grow (gp_env nt funs d0) d ds st = Ok (r, st', ds') /\ ds = pre ++ ds' /\ length pre <= needs d.
+Proof. intros nt funs d0 d ds st Hf Hnt. exact (grow_total _ (gp_env_ok nt funs d0 Hf) Hnt d ds st). Qed.
+
 (* copy.deepcopy of a well-formed tree (best tree; the first step of _mutate, _cross, _reproduction) *)
 Theorem C08_deepcopy_wf : forall st t, WFt arity_tab st t ->
   exists r st' t', deepcopy st (tid t) = Ok (r, st') /\ heap_ext st st' /\ abs st' r = Some t' /\
